@@ -275,34 +275,7 @@ func ruleC15(c *Check, p *Prog) {
 		"(lemmas: sum of +-1 over a byte = 2 popcount - 8; the 8-bit pattern of b is b, its 4-bit patterns b>>4 then b&15); R-ROUND Round15 stores Runner(data) of every registry element i at results[i] (15 slots), Round12 does the same over TestMethodArr[:12] (12 slots)."
 	c.Floor("R-RUNNER", 15)
 	c.Floor("R-FORWARD", 22)
-	// R-REGISTRY
-	l := p.GlobalLit(pkgRoot, "TestMethodArr")
-	var regBad []string
-	if l == nil || len(l.Elems) != 15 {
-		regBad = append(regBad, "TestMethodArr is not a literal of 15 items")
-	} else {
-		for i, e := range l.Elems {
-			r := e.Fields["Runner"]
-			nm, _ := e.Fields["Name"].Str()
-			if r == nil || r.Obj == nil || r.Obj.Name() != runnerSpecs[i].Name || r.Obj.Pkg().Path() != pkgRoot {
-				got := "?"
-				if r != nil && r.Obj != nil {
-					got = r.Obj.Name()
-				}
-				regBad = append(regBad, fmt.Sprintf("item %d runs %s, the standard's item %d is %s", i+1, got, i+1, runnerSpecs[i].Name))
-			}
-			if nm == "" {
-				regBad = append(regBad, fmt.Sprintf("item %d has no name", i+1))
-			}
-		}
-	}
-	_, gw := globalWrites(p, []string{pkgRoot, pkgFFT, pkgDetect, pkgDet, pkgGen})
-	for _, g := range gw {
-		if strings.Contains(g, "TestMethodArr") {
-			regBad = append(regBad, g)
-		}
-	}
-	c.Expect(len(regBad) == 0, "R-REGISTRY", "TestMethodArr", "structs.go:30", "15 items, runners in the standard's order, never written", strings.Join(regBad, "; "))
+	checkRegistry(c, p)
 	for _, rs := range runnerSpecs {
 		checkRunner(c, p, rs, "R-RUNNER", "")
 	}
@@ -464,3 +437,34 @@ func isRunnerOf(S *Store, fnTerm, runner, g, it *Term) bool {
 func bigInt(v int64) *big.Int { return big.NewInt(v) }
 
 var _ = types.Typ
+
+func checkRegistry(c *Check, p *Prog) {
+	// R-REGISTRY
+	l := p.GlobalLit(pkgRoot, "TestMethodArr")
+	var regBad []string
+	if l == nil || len(l.Elems) != 15 {
+		regBad = append(regBad, "TestMethodArr is not a literal of 15 items")
+	} else {
+		for i, e := range l.Elems {
+			r := e.Fields["Runner"]
+			nm, _ := e.Fields["Name"].Str()
+			if r == nil || r.Obj == nil || r.Obj.Name() != runnerSpecs[i].Name || r.Obj.Pkg().Path() != pkgRoot {
+				got := "?"
+				if r != nil && r.Obj != nil {
+					got = r.Obj.Name()
+				}
+				regBad = append(regBad, fmt.Sprintf("item %d runs %s, the standard's item %d is %s", i+1, got, i+1, runnerSpecs[i].Name))
+			}
+			if nm == "" {
+				regBad = append(regBad, fmt.Sprintf("item %d has no name", i+1))
+			}
+		}
+	}
+	_, gw := globalWrites(p, []string{pkgRoot, pkgFFT, pkgDetect, pkgDet, pkgGen})
+	for _, g := range gw {
+		if strings.Contains(g, "TestMethodArr") {
+			regBad = append(regBad, g)
+		}
+	}
+	c.Expect(len(regBad) == 0, "R-REGISTRY", "TestMethodArr", "structs.go:30", "15 items, runners in the standard's order, never written", strings.Join(regBad, "; "))
+}
